@@ -391,7 +391,7 @@ def _absorb(ck, results):
                 ck.case(key, nontrivial=False)
                 ck.inconclusive(f"{fam}: convergence ratio {r['wit'].get('ratio')} between 3 and 8 (single-ratio test undecided)")
                 continue
-            ck.case(key, nontrivial=r["nontrivial"], sample=dict(family=fam, site=site, **{k: r["wit"][k] for k in ("order", "nf", "method", "a0", "a1", "a2", "a", "diff", "tol", "defect20", "defect80") if k in r["wit"]}) if n % 431 == 0 else None)
+            ck.case(key, nontrivial=r["nontrivial"], sample=dict(family=fam, site=site, **{k: r["wit"][k] for k in ("order", "nf", "method", "a0", "a1", "a2", "a", "diff", "tol", "defect20", "defect80") if k in r["wit"]}) if (n % 431 == 0 or not ck.samples) else None)
             ck.hit(fam)
             if r["ok"]:
                 ck.ok()
